@@ -64,7 +64,9 @@ def run(prog, rep):
     rep.rule("E5.node", "add_graph_node returns the pre-push length; iter_nodes is 0..len")
     # E2.d over the interpreters: Attributes::add / add_edge results
     rep.rule("E2.d", "every Attributes::add failure becomes DuplicateAttribute and is propagated; add_edge results are never ignored other than 'existing edge kept'")
-    fns = [f for f in prog.shape_fns() if f.file in ("src/execution/strict.rs", "src/execution/lazy.rs", "src/execution/lazy/statements.rs", "src/execution.rs", "src/graph.rs")]
+    # by path prefix: code moved into a submodule of execution / graph stays covered
+    fns = [f for f in prog.shape_fns() if (f.file.startswith("src/execution") or f.file.startswith("src/graph")) and not f.file.startswith("src/execution/error")
+           and f.file not in ("src/execution/lazy/store.rs", "src/execution/lazy/values.rs")]
     n2, kinds = e2.run_e2d(prog, rep, fns, e2.ABSORB)
     rep.floor("E2.d", n2, 150, "fallible call sites in the interpreters and graph")
     na = 0
